@@ -13,7 +13,7 @@ use evalexpr::{
     ContextWithMutableVariables, DefaultNumericTypes, EvalexprError, HashMapContext,
     Node, Operator, Value,
 };
-use std::collections::{BTreeMap, BTreeSet};
+use std::collections::BTreeMap;
 
 /// Why the reference declines to judge a tree.
 #[derive(Debug, Clone, PartialEq)]
@@ -105,7 +105,8 @@ impl Delegate {
 /// The abstract environment: a map, a set of registered sentinel functions, the builtin switch.
 pub struct RefEnv<'a> {
     pub vars: BTreeMap<String, V>,
-    pub fns: BTreeSet<String>,
+    /// registered user functions: name -> sentinel behaviour
+    pub fns: BTreeMap<String, String>,
     pub builtins_disabled: bool,
     pub kind: CtxKind,
     pub log: Vec<Ev>,
@@ -116,11 +117,11 @@ pub struct RefEnv<'a> {
 impl<'a> RefEnv<'a> {
     pub fn new(setup: &Setup, kind: CtxKind, faults: &'a [usize]) -> Self {
         let (vars, fns, builtins_disabled) = match kind {
-            CtxKind::Empty => (BTreeMap::new(), BTreeSet::new(), true),
-            CtxKind::EmptyBuiltins => (BTreeMap::new(), BTreeSet::new(), false),
+            CtxKind::Empty => (BTreeMap::new(), BTreeMap::new(), true),
+            CtxKind::EmptyBuiltins => (BTreeMap::new(), BTreeMap::new(), false),
             _ => (
                 setup.vars.iter().cloned().collect(),
-                setup.fns.iter().cloned().collect(),
+                setup.fns.iter().map(|f| (f.clone(), f.clone())).collect(),
                 setup.builtins_disabled,
             ),
         };
@@ -179,7 +180,8 @@ impl<'a> RefEnv<'a> {
     }
 
     fn call(&mut self, name: &str, arg: &V, d: &mut Delegate) -> R {
-        let registered = self.fns.contains(name);
+        let behaviour = self.fns.get(name).cloned();
+        let registered = behaviour.is_some();
         if self.kind.records_all_calls() || (self.kind == CtxKind::Bare && registered) {
             if let Some(idx) =
                 self.record(Ev::Call(name.to_string(), cv(arg)), FaultKind::CallError)
@@ -187,8 +189,8 @@ impl<'a> RefEnv<'a> {
                 return Err(injected_error(idx));
             }
         }
-        if registered {
-            return Ok(sentinel(name, arg));
+        if let Some(b) = behaviour {
+            return Ok(sentinel(&b, arg));
         }
         if !self.builtins_disabled {
             return d.builtin(name, arg);
@@ -207,8 +209,8 @@ impl<'a> RefEnv<'a> {
         let probe = Value::Int(41);
         let mut out = Vec::new();
         for n in FN_NAMES.iter().chain([UNKNOWN_FN].iter()) {
-            let r: R = if self.fns.contains(*n) {
-                Ok(sentinel(n, &probe))
+            let r: R = if let Some(b) = self.fns.get(*n) {
+                Ok(sentinel(b, &probe))
             } else {
                 Err(EvalexprError::FunctionIdentifierNotFound(n.to_string()))
             };
